@@ -749,6 +749,15 @@ func (g *FnGen) doLookup(x *ssa.Lookup) {
 
 func (g *FnGen) doSlice(x *ssa.Slice) {
 	base := g.val(x.X)
+	// C17: a slice taken of an array that lives inside a node type shared between goroutines
+	// hands out that node's own storage; whoever receives it may write it without any lock. Only
+	// allowed on an object this function created itself.
+	if fa, ok := x.X.(*ssa.FieldAddr); ok && len(g.S.SharedTypes) > 0 {
+		if st, _ := derefStruct(fa.X.Type()); st != nil && g.S.SharedTypes[typeName(st)] {
+			owner := g.val(fa.X)
+			g.oblige("shared-write", g.siteNames[x]+":"+typeName(st)+":slice-of-own-storage", g.curGuard, g.isFresh(owner.T), "storage inside a shared node is sliced (and so handed out for writing) only on a fresh object", x.Pos())
+		}
+	}
 	var lo, hi, max string
 	if x.Low != nil {
 		lo = to64(g.val(x.Low))
